@@ -84,6 +84,19 @@ def decide(gd, idx, cls, do_thresholds=True, do_run_games=False):
         res["stats"]["pruned_nosol"] = 1
     else:
         res["stats"]["pruned_no_result"] = 1
+    # the same StochasticGame object solved in both modes, in either order, must report the same probabilities
+    if out_p.status in ("ok", "nosol"):
+        desc = games.to_solver(gd)
+        order = (True, False) if idx % 2 == 0 else (False, True)
+        sg = tad.StochasticGame(desc["rewards"], desc["players"], desc["transition_list"], desc["final_states"], prune_states=order[0])
+        for k, prune in enumerate(order):
+            o = monitors.observed_solve(desc, prune, limit, sg=sg)
+            res["stats"]["same_object_solves"] = res["stats"].get("same_object_solves", 0) + 1
+            if o.status == "ok" and o.result[3] != x:
+                problems.append({"problem": "probabilities differ when the same game object is solved again (solve #%d, prune=%s)" % (k + 1, prune),
+                                 "mode": "same-object", "got": o.result[3], "first": x})
+            elif o.status not in ("ok", "nosol", "budget"):
+                problems.append({"problem": "second solve through the same object failed: %s %s" % (o.exc, o.msg), "mode": "same-object"})
     if do_thresholds:
         for t in THRESHOLDS:
             try:
